@@ -11,6 +11,10 @@ after every such action what the writer has done.  Three sub-harnesses:
   B  delay injection       instrumented `threading.Event` (slow `clear()`, slow `wait()`), instant device
   C  held priority queue   `disconnect(wait=True)` issued while a statement is still queued
 
+Handshakes: line-number mode (the device is silent until it answers the probe `G4 P0`; printcore sends `M110 N-1`
+twice) and no-line-number mode (`grbl`: the device greets with `Grbl …` as soon as the port is open, printcore
+sends no `M110` and connect() returns on the `ok` of the probe, which is released like any other line - late).
+
 The oracle works on the event log only (independent of the model).
 """
 from __future__ import annotations
@@ -49,7 +53,8 @@ SURPLUS_OK = ["ok", "ok", "ok T:22.0 /0.0", "Ok"]
 UNSOLICITED = ["ALARM:1", "Alarm: hard limit", "error:9", "!! kill() called", "Error:Heating failed, system stopped!"]
 BAD = ["error: checksum mismatch", "Error:Printer halted. kill() called!", "Alarm: hard limit", "ALARM:1",
        "!! fatal", "error:20"]
-COMPARE_LIVE = ("noop", "phase", "online", "printing", "clear", "w", "ack", "err", "priq", "tx", "out", "draise")
+GREETINGS = ["Grbl 1.1h ['$' for help]", "Grbl 0.9j ['$' for help]", "Grbl 1.1f ['$' for help]"]
+COMPARE_LIVE = ("noop", "phase", "online", "printing", "clear", "w", "ack", "err", "priq", "tx", "out", "draise", "ln")
 COMPARE_HALTED = ("noop", "phase", "tx", "out", "draise")
 OBSERVABLE = ("phase", "w", "tx", "out", "draise")
 
@@ -124,8 +129,11 @@ def gen_script(rng, handshake: bool, allow_temp: bool, p_err: float):
     return lines, (pre or "-"), term
 
 
-def gen_case(rng, kind="serial", flavour=None, timeout=None):
-    """A release script.  flavours: clean | backlog | connect-error | loss"""
+def gen_case(rng, kind="serial", flavour=None, timeout=None, grbl=False):
+    """A release script.  flavours: clean | backlog | connect-error | loss.  grbl: the device greets with `Grbl …`
+    before anything else (no-line-number mode): the only handshake commands are the probes, and the greeting is on
+    the wire ahead of the probe's reply, so that reply is always released after startprint() has run (released
+    before, connect() never returns on the unchanged tree - liveness, outside C16; observation witness in Props/C16.lean)."""
     if flavour is None:
         flavour = rng.choices(["clean", "loss", "connect-error"], [0.8, 0.14, 0.06])[0]
     n = rng.choice([1, 2, 2, 3, 3, 4, 5])
@@ -134,12 +142,16 @@ def gen_case(rng, kind="serial", flavour=None, timeout=None):
     if flavour == "backlog":
         probes = rng.choice([2, 2, 3])
         ops += [["P"]] * (probes - 1)
-    total = probes + 2 + n
+    n_hs = probes if grbl else probes + 2   # handshake commands: probes (+ the two M110 in line-number mode)
+    total = n_hs + n
     p_err_stmt = rng.choice([0.0, 0.15, 0.3, 0.5])
     sent, consumed, wire, heard = probes, 0, [], 0
+    if grbl:
+        ops.append(["G", rng.choice(GREETINGS)])
+        wire.append(0)
     # number of terminal replies heard before the connection is lost (socket: while the last write is in flight)
-    loss_after = (rng.randint(3, 3 + n - 1) if kind == "serial" else 3 + n - 1) if flavour == "loss" else None
-    bad_cmd = rng.randint(0, 2) if flavour == "connect-error" else None
+    loss_after = (rng.randint(n_hs, n_hs + n - 1) if kind == "serial" else n_hs + n - 1) if flavour == "loss" else None
+    bad_cmd = rng.randint(0, n_hs - 1) if flavour == "connect-error" else None
     guard = 0
     while (consumed < total or wire) and guard < 400:
         guard += 1
@@ -150,7 +162,7 @@ def gen_case(rng, kind="serial", flavour=None, timeout=None):
         if not can_d and not can_r:
             break
         if can_d and (not can_r or rng.random() < 0.55):
-            hs = consumed < probes + 2
+            hs = consumed < n_hs
             # status lines containing "T:" bring printcore online: during the handshake that is the backlog flavour
             lines, pre, term = gen_script(rng, hs, allow_temp=(not hs) or flavour == "backlog",
                                           p_err=(1.0 if consumed == bad_cmd else 0.0) if hs else p_err_stmt)
@@ -170,6 +182,9 @@ def gen_case(rng, kind="serial", flavour=None, timeout=None):
     ops.append(["settle"])
     stmts = [gen_stmt(rng, k) for k in range(n)]
     case = {"kind": kind, "flavour": flavour, "n": n, "disc": rng.random() < 0.8, "stmts": stmts, "ops": ops}
+    if grbl:
+        case["grbl"] = True
+        case["flavour"] = "grbl-" + flavour
     if timeout:
         # set_timeout() shorter than the device's latency (`Z` = the device takes its time before the next line)
         case["timeout"] = timeout
@@ -178,14 +193,14 @@ def gen_case(rng, kind="serial", flavour=None, timeout=None):
             out.append(op)
             if op[0] == "D":
                 seen += 1
-                if seen > probes + 2 and rng.random() < 0.7:
+                if seen > n_hs and rng.random() < 0.7:
                     out.append(["Z"])
         case["ops"] = out
-        case["flavour"] = flavour + "+timeout"
+        case["flavour"] = case["flavour"] + "+timeout"
     return case
 
 
-def gen_gated_case(rng, hit: bool):
+def gen_gated_case(rng, hit: bool, grbl: bool = False):
     """The caller starts each call only when told to (`W`), so lines can be delivered *between* two calls.
     hit=False: surplus `ok` / unsolicited error lines are queued behind a statement's terminal reply and are
     therefore read while the caller is idle (harmless on the repaired code; the next call must raise a stored
@@ -193,7 +208,9 @@ def gen_gated_case(rng, hit: bool):
     n = rng.choice([2, 2, 3, 3, 4])
     p_err = rng.choice([0.0, 0.2, 0.4])
     ops = [["start"]]
-    for _ in range(3):
+    if grbl:
+        ops += [["G", rng.choice(GREETINGS)], ["R"]]   # greeting read (startprint runs), only then the probe's reply
+    for _ in range(1 if grbl else 3):
         lines, pre, term = gen_script(rng, True, allow_temp=False, p_err=0.0)
         ops.append(["D", pre, term, lines])
         ops += [["R"]] * len(lines)
@@ -231,8 +248,12 @@ def gen_gated_case(rng, hit: bool):
         ops.append(["W"])
     ops += [["D", "-", "o", [("ok", False)]], ["R"], ["settle"]]
     stmts = [gen_stmt(rng, j) for j in range(n)]
-    return {"kind": "serial", "flavour": "surplus-hit" if hit else "gated", "n": n, "disc": disc, "gated": True,
+    case = {"kind": "serial", "flavour": "surplus-hit" if hit else "gated", "n": n, "disc": disc, "gated": True,
             "stmts": stmts, "ops": ops}
+    if grbl:
+        case["grbl"] = True
+        case["flavour"] = "grbl-" + case["flavour"]
+    return case
 
 
 def exhaustive_cases():
@@ -267,7 +288,7 @@ def model_lines(case):
     out = [f"cfg writes={case['n']} disc={1 if case['disc'] else 0} gated={1 if case.get('gated') else 0}"]
     for op in case["ops"]:
         out.append(" ".join(op[:3]) if op[0] == "D" else " ".join(op[:2]) if op[0] == "X" else
-                   "settle" if op[0] == "Z" else op[0])
+                   "settle" if op[0] == "Z" else op[0])   # `G <text>` -> `G`
     return out
 
 
@@ -300,7 +321,7 @@ def run_case(case, expected, timeout=1.5, settle=0.012):
     try:
         for i, op in enumerate(case["ops"]):
             want = project(expected[i + 1]) if expected else None
-            if op[0] in "PDRLX" and S.snapshot()["phase"] in ("failed", "disconnected"):
+            if op[0] in "PDRLXG" and S.snapshot()["phase"] in ("failed", "disconnected"):
                 did = False  # the writer's device object is gone: nothing can be observed any more
             elif op[0] == "start":
                 t_end = time.time() + 3.0
@@ -317,6 +338,8 @@ def run_case(case, expected, timeout=1.5, settle=0.012):
                 did = S.lose()
             elif op[0] == "X":
                 did = S.push(op[2], op[1] == "b")
+            elif op[0] == "G":
+                did = S.greet(op[1])
             elif op[0] == "W":
                 S.permit()
                 did = True
@@ -377,7 +400,8 @@ def structural_info(case, ev):
     """Structural facts about the run used by finding predicates (never the oracle's verdict)."""
     info = {"backlog_at_online": 0, "surplus_hit": 0}
     sent = terms = 0
-    for e in ev:
+    online_at = None
+    for i, e in enumerate(ev):
         if e[0] == "tx" and e[3]:
             sent += 1
         elif e[0] == "rel":
@@ -388,12 +412,22 @@ def structural_info(case, ev):
                 # this line brings printcore online: commands sent so far that are still unanswered
                 info["backlog_at_online"] = sent - terms
                 info["online_line"] = text
+                online_at = i
+                if text.startswith("Grbl"):
+                    # no line numbers: startprint sends no M110 and connect() awaits the ok of the one command that
+                    # is still unanswered (the probe); only what is unanswered beyond that one is a backlog
+                    # (model: backlogAt)
+                    info["no_line_numbers"] = True
+                    info["backlog_at_online"] = max(0, sent - terms - 1)
                 break
     # surplus hit: a flag-setting line that is nobody's terminal reply is released while connect() awaits a
-    # line-number reset, or while a write() is open whose own terminal reply has not been released yet
+    # line-number reset (no line numbers: the probe's ok, from the greeting on), or while a write() is open whose
+    # own terminal reply has not been released yet
     tx_index = _stmt_tx_index(case, ev)
     released, open_call, connect_done, resets = set(), None, False, 0
-    for e in ev:
+    for i, e in enumerate(ev):
+        if info.get("no_line_numbers") and i == online_at:
+            resets += 1   # stands for the awaited acknowledgement
         if e[0] == "tx" and e[3] and "M110" in e[2]:
             resets += 1
         elif e[0] in ("connected", "connect-raised"):
@@ -538,7 +572,7 @@ def absorbed_by(fl, listed):
 
 # ------------------------------------------------------------------ running a batch of release scripts
 def case_repr(case):
-    return {k: case[k] for k in ("kind", "flavour", "n", "disc", "gated", "timeout", "stmts", "ops") if k in case}
+    return {k: case[k] for k in ("kind", "flavour", "n", "disc", "gated", "grbl", "timeout", "stmts", "ops") if k in case}
 
 
 def model_records(cases):
@@ -590,12 +624,18 @@ def run_batch(R, cases, label, listed, compare=True):
                 break
             timeout, settle = timeout * 1.5, settle * 2  # real threads: retry before it counts
         R.count(label, "kind:" + case["kind"], "flavour:" + case["flavour"], f"writes:{case['n']}",
-                "disc" if case["disc"] else "no-disc", f"tries:{tries}")
+                "disc" if case["disc"] else "no-disc", f"tries:{tries}",
+                "handshake:grbl" if case.get("grbl") else "handshake:line-numbers")
+        if case.get("grbl"):
+            # did the no-line-number connect go all the way (greeting read, probe acknowledged later, connect() returned)?
+            R.count("grbl:connect-returned" if any(e[0] == "connected" for e in ev) else
+                    "grbl:connect-raised" if any(e[0] == "connect-raised" for e in ev) else "grbl:connect-unfinished")
         terms = sum(1 for e in ev if e[0] == "rel" and e[3])
         R.case(case_repr(case), nontrivial=(terms >= 4 and any(e[0] == "ret" for e in ev)))
         for e in ev:
             if e[0] == "rel":
-                R.count("released:" + ("error" if e[4] else "ok" if e[3] else "T-line" if "T:" in e[2] else "status"))
+                R.count("released:" + ("error" if e[4] else "ok" if e[3] else "greeting" if len(e) > 5 and e[5] == "g" else
+                                       "T-line" if "T:" in e[2] else "status"))
             elif e[0] == "ret":
                 R.count("write:" + e[2])
             elif e[0] in ("loss", "connect-raised"):
@@ -835,6 +875,17 @@ def surplus_case():
             "stmts": ["G999\n", "G1 X2\n"], "ops": ops}
 
 
+def grbl_case():
+    """No line numbers: the greeting is read first (startprint runs, no M110), the probe's ok only afterwards - released
+    late, as by a controller whose dwell waits for the planner; then two statements, the first one answered with a
+    status report.  Part of the corpus of every run."""
+    ok = [("ok", False)]
+    ops = [["start"], ["G", GREETINGS[0]], ["R"], ["D", "s", "o", [(STATUS[3], False), ("ok", False)]], ["R"], ["R"],
+           ["D", "s", "o", [(STATUS[6], False), ("ok", False)]], ["R"], ["R"], ["D", "-", "o", ok], ["R"], ["settle"]]
+    return {"kind": "serial", "flavour": "grbl-clean", "grbl": True, "n": 2, "disc": True,
+            "stmts": ["G1 X10 Y5 F600\n", "G1 X2 Y3\n"], "ops": ops}
+
+
 def witness_surplus():
     """error:20 + ok for statement 0; the ok is read after the caller entered write(1)."""
     return _witness(surplus_case(), absorb_surplus,
@@ -849,7 +900,8 @@ WITNESSES = {FID_BACKLOG: witness_backlog, FID_SURPLUS: witness_surplus}
 def run(R: core.Run):
     R.rule = ("release scripts: 1-5 statements x per-command reply scripts (0-3 status/T: lines, some with 'ok' inside a "
               "word, then ok-variant or error/alarm/!! terminal) x random interleaving of device consumption and line "
-              "release x optional connection loss x optional disconnect(wait=True); gated scripts: the caller starts each "
+              "release x optional connection loss x optional disconnect(wait=True) x handshake (line numbers: silent device, two "
+              "M110; no line numbers: 'Grbl ...' greeting first, the probe's ok released later like any line); gated scripts: the caller starts each "
               "call on command, surplus ok / unsolicited error lines queued behind a reply are read between two calls; non-trivial = at least 4 terminal "
               "replies released and at least one write completed; distinct by hash")
     R.assumptions = [
@@ -857,8 +909,13 @@ def run(R: core.Run):
         "the device answers every received command with exactly one terminal reply (ok... or error.../alarm.../!!...), "
         "may push surplus ok / unsolicited error lines at any time (scripted as separate `X` lines), "
         "reports readings only in the scripted formats (T:/B: temperature and X/Y/Z/E position reports, fixed vocabulary), "
-        "and never sends greetings ('start', 'Grbl'), 'Resend:'/'rs' or 'DEBUG_' lines during a session",
-        "line-number mode (no 'Grbl' greeting); connect probes and resets are acknowledged with a lowercase 'ok...'",
+        "and never sends 'start', 'Resend:'/'rs' or 'DEBUG_' lines; it greets at most once, with 'Grbl <version> ...', "
+        "as the first line after the port is opened (then: no line numbers, no M110)",
+        "after a 'Grbl' greeting the probe's reply reaches the host after startprint() has run (it is behind the greeting "
+        "on the wire and released by a later step); released before, connect() never returns on the unchanged tree "
+        "(nothing raises `clear` again: liveness, outside C16 - Props/C16.lean observation witness); greetings that "
+        "switch line numbers off without bringing printcore online ('GrblHAL ...') are not simulated",
+        "connect probes and resets are acknowledged with a lowercase 'ok...'",
         "after a connection loss both reads and writes on the port fail (fake port); on a socket the loss is the last event",
         "thread scheduling below the model's atomic steps is exercised only by sub-harness B (instrumented Event)",
     ]
@@ -879,17 +936,24 @@ def run(R: core.Run):
     n_back = max(2, n // 14)
     n_gated = max(8, n // 4)
     n_hit = max(2, n // 14)
-    corpus = [backlog_case(), surplus_case()]
-    cases = [gen_case(R.rng) for _ in range(max(4, n - n_sock - n_back - n_gated - n_hit))]
+    n_grbl = max(4, n // 8)
+    corpus = [backlog_case(), surplus_case(), grbl_case()]
+    cases = [gen_case(R.rng) for _ in range(max(4, n - n_sock - n_back - n_gated - n_hit - n_grbl))]
     cases += [gen_case(R.rng, flavour="backlog") for _ in range(n_back)]
-    cases += [gen_gated_case(R.rng, hit=False) for _ in range(n_gated)]
-    cases += [gen_gated_case(R.rng, hit=True) for _ in range(n_hit)]
+    # no-line-number handshakes (`Grbl …` greeting): mostly clean, some lost / refused / with probes piled up
+    cases += [gen_case(R.rng, flavour=R.rng.choices(["clean", "loss", "connect-error", "backlog"], [0.7, 0.1, 0.08, 0.12])[0],
+                       grbl=True) for _ in range(n_grbl)]
+    n_gated_grbl = max(1, n_gated // 5)
+    cases += [gen_gated_case(R.rng, hit=False) for _ in range(n_gated - n_gated_grbl)]
+    cases += [gen_gated_case(R.rng, hit=False, grbl=True) for _ in range(n_gated_grbl)]
+    cases += [gen_gated_case(R.rng, hit=True, grbl=R.rng.random() < 0.25) for _ in range(n_hit)]
     cases += [gen_case(R.rng, flavour="clean", timeout=0.05) for _ in range(max(3, n // 12))]
     R.rng.shuffle(cases)
     run_batch(R, corpus + cases, "serial", listed)
     sock_cases = []
-    for _ in range(n_sock):
-        c = gen_case(R.rng, kind="socket", flavour=R.rng.choice(["clean", "clean", "clean", "loss"]))
+    for k in range(n_sock):
+        c = gen_case(R.rng, kind="socket", flavour=R.rng.choice(["clean", "clean", "clean", "loss"]),
+                     grbl=(k == 1 or R.rng.random() < 0.2))   # at least one networked controller greets
         sock_cases.append(c)
     run_batch(R, sock_cases, "socket", listed)
     sub_delay(R, listed)
@@ -910,6 +974,7 @@ def run(R: core.Run):
         # failing-input search: fresh scripts judged by the oracle alone, biased to what the property talks about
         R.search_batches += 1
         extra = [gen_case(R.rng, flavour=f) for f in ["clean"] * R.n(10, 40) + ["loss"] * R.n(3, 10)]
+        extra += [gen_case(R.rng, flavour="clean", grbl=True) for _ in range(R.n(4, 16))]
         extra += [gen_gated_case(R.rng, hit=False) for _ in range(R.n(10, 40))]
         extra += [gen_case(R.rng, flavour="clean", timeout=0.05) for _ in range(R.n(4, 12))]
         run_batch(R, extra, "search", listed, compare=False)
